@@ -258,6 +258,21 @@ def run(ctx):
                 for nm in reg:
                     emsarray.conventions.register_convention(classes[nm][0])
                 listed = [classes[nm][0] for nm in reg] + list(registry.entry_point_conventions)
+                # earlier in the same process: a convention constructed by hand on ANOTHER dataset, with coordinate names
+                # given as a keyword (documented for ArakawaC and its subclasses) - no bearing on later detections
+                pre = [None, 'ShocStandard', 'ArakawaC', 'ShocStandard+bind'][(len(reg) + visits.index(visit) + orders.index(reg)) % 4]
+                case['constructed earlier with coordinate_names'] = pre
+                if pre:
+                    m = namings['variant' if pre.startswith('Shoc') else 'plain']
+                    kwnames = {'face': (m['y_centre'], m['x_centre']), 'left': (m['y_left'], m['x_left']),
+                               'back': (m['y_back'], m['x_back']), 'node': (m['y_grid'], m['x_grid'])}
+                    other = dsets['variant' if pre.startswith('Shoc') else 'plain'].copy()
+                    with warnings.catch_warnings():
+                        warnings.simplefilter('ignore')
+                        c0 = attempt(lambda: (ShocStandard if pre.startswith('Shoc') else ArakawaC)(other, coordinate_names=kwnames))
+                        if c0[0] == 'ok' and pre.endswith('bind'):
+                            attempt(c0[1].bind)
+                    ctx.count(f'constructed_with_keyword:{pre}')
                 for which in visit:
                     ds = dsets[which].copy()
                     # by content: an Arakawa class matches (HIGH = 30) exactly when all eight of ITS names are variables
